@@ -35,6 +35,41 @@ var applyExceptions = map[string]string{
 	"internal/controller/pkg/revision.applySA|*":                                                                       "package runtime objects: not among the placements the property enumerates",
 }
 
+// childKind: static types of objects these controllers write on behalf of an
+// owner (never the reconciled object itself).
+var childKind = map[string]bool{
+	"*k8s.io/api/core/v1.Secret":                       true,
+	"*k8s.io/api/rbac/v1.ClusterRole":                  true,
+	"*k8s.io/api/rbac/v1.ClusterRoleBinding":           true,
+	"*k8s.io/api/rbac/v1.Role":                         true,
+	"*k8s.io/api/rbac/v1.RoleBinding":                  true,
+	"*k8s.io/apiextensions-apiserver/pkg/apis/apiextensions/v1.CustomResourceDefinition": true,
+	"github.com/crossplane/crossplane-runtime/pkg/resource.Composed":                     true,
+	"*github.com/crossplane/crossplane-runtime/pkg/resource/unstructured/composed.Unstructured": true,
+	"*k8s.io/apimachinery/pkg/apis/meta/v1/unstructured.Unstructured":                    true,
+	"sigs.k8s.io/controller-runtime/pkg/client.Object":                                   true,
+	"k8s.io/apimachinery/pkg/runtime.Object":                                             true,
+}
+
+// rawWriteSites: the raw writes of child kinds confirmed by hand, with the
+// rule that decides their guard.
+var rawWriteSites = map[string]string{
+	"(*internal/controller/apiextensions/composite.DeletingComposedResourceGarbageCollector).GarbageCollectComposedResources|(client.Writer).Update|github.com/crossplane/crossplane-runtime/pkg/resource.Composed": "R2.2 (controller test on the object)",
+	"(*internal/controller/apiextensions/composite.DeletingComposedResourceGarbageCollector).GarbageCollectComposedResources|(client.Writer).Delete|github.com/crossplane/crossplane-runtime/pkg/resource.Composed": "R2.2 (controller test on the object)",
+	"(*internal/controller/apiextensions/composite.GarbageCollectingAssociator).AssociateTemplates|(client.Writer).Update|*github.com/crossplane/crossplane-runtime/pkg/resource/unstructured/composed.Unstructured":  "R2.2 (controller test on the object)",
+	"(*internal/controller/apiextensions/composite.GarbageCollectingAssociator).AssociateTemplates|(client.Writer).Delete|*github.com/crossplane/crossplane-runtime/pkg/resource/unstructured/composed.Unstructured":  "R2.2 (controller test on the object)",
+	"(*internal/controller/apiextensions/composite.FunctionComposer).Compose|(client.Writer).Patch|github.com/crossplane/crossplane-runtime/pkg/resource.Composed":                                                  "R2.7 (server-side apply of an object carrying our controller reference)",
+	"(*internal/controller/apiextensions/definition.Reconciler).Reconcile|(client.Writer).Delete|*k8s.io/apiextensions-apiserver/pkg/apis/apiextensions/v1.CustomResourceDefinition":                                "R2.4 (WasCreated ∧ IsControlledBy)",
+	"(*internal/controller/apiextensions/offered.Reconciler).Reconcile|(client.Writer).Delete|*k8s.io/apiextensions-apiserver/pkg/apis/apiextensions/v1.CustomResourceDefinition":                                   "R2.4 (WasCreated ∧ IsControlledBy)",
+	"(*internal/controller/apiextensions/definition.Reconciler).Reconcile|(client.Writer).DeleteAllOf|*k8s.io/apimachinery/pkg/apis/meta/v1/unstructured.Unstructured":                                              "instances of the XRD's own kind (C08 R8.2), reached only for our CRD (R2.4)",
+	"(*internal/controller/apiextensions/offered.Reconciler).Reconcile|(client.Writer).Delete|*k8s.io/apimachinery/pkg/apis/meta/v1/unstructured.Unstructured":                                                      "claims of the XRD's own kind (C08 R8.3), reached only for our CRD (R2.4)",
+	"(*internal/controller/apiextensions/claim.PatchingManagedFieldsUpgrader).Upgrade|(client.Writer).Patch|sigs.k8s.io/controller-runtime/pkg/client.Object":                                                     "managed-fields upgrade of the claim / its bound XR (C06 R6.4 gates the caller)",
+	"(*internal/controller/apiextensions/composite.PatchingManagedFieldsUpgrader).Upgrade|(client.Writer).Patch|sigs.k8s.io/controller-runtime/pkg/client.Object":                                                 "managed-fields upgrade of the XR itself (self)",
+	"(*internal/controller/pkg/revision.APIEstablisher).create|(client.Writer).Create|sigs.k8s.io/controller-runtime/pkg/client.Object":                                                                            "R2.5 / C16 (create only after a NotFound read; carries our controller reference)",
+	"(*internal/controller/pkg/revision.APIEstablisher).update|(client.Writer).Update|sigs.k8s.io/controller-runtime/pkg/client.Object":                                                                            "R2.5 (AddControllerReference on the snapshot)",
+	"(*internal/controller/pkg/revision.APIEstablisher).ReleaseObjects$1|(client.Writer).Update|*k8s.io/apimachinery/pkg/apis/meta/v1/unstructured.Unstructured":                                                   "C16 R16.4 (only flips our own owner reference to non-controlling)",
+}
+
 var c02pkgs = []string{
 	pkgComposite, "internal/controller/apiextensions/claim", "internal/controller/apiextensions/definition", "internal/controller/apiextensions/offered",
 	"internal/controller/pkg/manager", "internal/controller/pkg/revision", "internal/controller/rbac/provider/roles", "internal/controller/rbac/provider/binding", "internal/controller/rbac/definition",
@@ -98,6 +133,38 @@ func c02(c *Ctx) {
 			}
 		}
 		c.R.Check(ownerOK, load.FuncName(fn)+": owner parameter", c.pos(fcs[0].Get.Pos()), "compared with the UID of the owner parameter", "the controller UID is not compared with the owner parameter's UID")
+	}
+
+	c.R.Rule("R2.8", "who may write child kinds: a raw Create/Update/Patch/Delete of a Secret, role, binding, CRD, composed resource or untyped object in these controllers is one of the confirmed guarded sites, or is itself dominated by a controller test on the object written", 12,
+		"a raw client write bypasses the Applicator's MustBeControllableBy guard: an object another owner controls is overwritten, adopted or deleted")
+	for _, p := range c02pkgs {
+		for _, f := range c.P.PkgFunctions(p) {
+			for _, w := range calls(f, clientCreate, clientUpdate, clientPatch, clientDelete, clientDeleteAllOf) {
+				ot := fullType(cfgx.CallArgs(w)[1])
+				if !childKind[ot] {
+					continue
+				}
+				key := load.FuncName(f) + "|" + cfgx.ShortCallee(cfgx.CalleeName(w)) + "|" + ot
+				if why, ok := rawWriteSites[key]; ok {
+					c.R.OK(site(w)+" confirmed-site", c.pos(w.Pos()), "confirmed guarded site: "+why)
+					continue
+				}
+				// not a confirmed site: accept only with its own controller test
+				good := false
+				for _, fc := range foreignControllerTests(f) {
+					if ok, _ := cfgx.MustCross(w, fc.Ours, nil); !ok {
+						continue
+					}
+					if reach, _ := cfgx.ReachableFromEdges(fc.Foreign, w, cfgx.BackEdges(f), nil); reach {
+						continue
+					}
+					if flow.Root(underIface(cfgx.CallArgs(w)[1])) == fc.Of || flow.Default.Any(cfgx.CallArgs(w)[1], func(v ssa.Value) bool { return v == fc.Of }) {
+						good = true
+					}
+				}
+				c.R.Check(good, site(w)+" guarded-raw-write", c.pos(w.Pos()), "dominated by a controller test on the object written", "raw "+cfgx.ShortCallee(cfgx.CalleeName(w))+" of a "+cfgx.ShortCallee(ot)+" outside the confirmed guarded sites and without a controller test on that object: an object controlled by another owner would be written")
+			}
+		}
 	}
 
 	c.R.Rule("R2.3", "observation ignores foreign objects", 1, "a foreign object observed as ours is later patched or garbage collected")
